@@ -32,7 +32,20 @@ Inductive cres :=
 Record sst := { s_keys : list N; s_fin : bool; s_closed : bool; s_created : bool }.
 Definition s_init : sst := {| s_keys := []; s_fin := false; s_closed := false; s_created := false |}.
 
-Definition memN (x : N) (l : list N) : bool := existsb (N.eqb x) l.
+(* Blocks are ids.  Ids below 100 are ordinary blocks (one key each).  Ids >= 100 form key families:
+   id = 100 + 10*g + v; all members of family g carry the same digest bytes; variants 0,1,2 share one
+   multihash (CIDv1 raw / CIDv1 dag-pb / CIDv0 over sha2-256), variants 3,4 another (sha3-256 code,
+   raw / dag-cbor), variant 5 a third (blake2b-256 code).  The stores de-duplicate by multihash
+   (default options): [mhkey i] is the smallest id with the multihash of i. *)
+Definition mhkey (i : N) : N :=
+  if i <? 100 then i
+  else let v := i mod 10 in
+       if v <=? 2 then i - v else if v <=? 4 then i - v + 3 else i - v + 5.
+Definition same_mh (a b : N) : bool := mhkey a =? mhkey b.
+(* some stored block has the multihash of x / the first such block (what a lookup returns) *)
+Definition memN (x : N) (l : list N) : bool := existsb (same_mh x) l.
+Definition firstN (x : N) (l : list N) : N :=
+  match find (same_mh x) l with Some j => j | None => x end.
 Fixpoint add_keys (ks ids : list N) : list N :=
   match ids with
   | [] => ks
@@ -77,9 +90,9 @@ Definition close_step (v1 : bool) (s : sst) : sst * cres :=
 Definition read_ops (s : sst) (o : cop) : sst * cres :=
   let k := c_kind o in
   if k =? 2 then (s, RNum (if memN (first_id o) (s_keys s) then 1 else 0))
-  else if k =? 3 then (s, if memN (first_id o) (s_keys s) then RNum (first_id o) else RErr 3)
-  else if k =? 4 then (s, if memN (first_id o) (s_keys s) then RNum (blk_size (first_id o)) else RErr 3)
-  else if k =? 5 then (s, RList (sortN (s_keys s)))
+  else if k =? 3 then (s, if memN (first_id o) (s_keys s) then RNum (firstN (first_id o) (s_keys s)) else RErr 3)
+  else if k =? 4 then (s, if memN (first_id o) (s_keys s) then RNum (blk_size (firstN (first_id o) (s_keys s))) else RErr 3)
+  else if k =? 5 then (s, RList (sortN (map mhkey (s_keys s))))
   else (s, RNone).
 
 Definition step_blockstore (v1 : bool) (s : sst) (o : cop) : sst * cres :=
